@@ -12,7 +12,7 @@ Open Scope Z_scope.
 
 (* the types inference produces from first-order values, closed under commonType: scalars with value or range,
    the ladder types, Array/Hash/Sensitive of such, the two empty collection types, and the markers TOther
-   (aliases Data / RichData, out of fuel, NaN) *)
+   (aliases Data / RichData, out of fuel) *)
 Fixpoint K (t : ty) : bool :=
   match t with
   | TAny | TUndef | TDefault | TBoolean _ | TInteger _ _ | TFloat _ _ | TNumeric | TScalar | TScalarData
@@ -74,7 +74,7 @@ Section InferInst.
     - (* Boolean *) atomic. destruct v as [y|]; [|reflexivity]. destruct v0 as [z|]; cbn in Hr; [|discriminate Hr].
       apply eqb_prop in Hr. subst. exact Hi.
     - (* Integer *) atomic. eapply in_size_sub'; eassumption.
-    - (* Float *) atomic. eapply in_size_sub'; eassumption.
+    - (* Float *) atomic; [eapply float_in_sub|eapply float_unbounded_sub]; eassumption.
     - (* Numeric *) atomic.
     - (* Scalar *) atomic.
     - (* ScalarData *) atomic.
@@ -259,8 +259,8 @@ Section InferInst.
       cbn [merge_same common_range fst snd] in *.
     - (* Integer *) destruct x; cbn [inst] in Hi |- *; try (destruct Hi as [Hi|Hi]; discriminate Hi).
       destruct Hi as [Hi|Hi]; [apply in_size_minmax_l|apply in_size_minmax_r]; exact Hi.
-    - (* Float *) destruct x; cbn [inst] in Hi |- *; try (destruct Hi as [Hi|Hi]; discriminate Hi).
-      destruct Hi as [Hi|Hi]; [apply in_size_minmax_l|apply in_size_minmax_r]; exact Hi.
+    - (* Float *) destruct x; cbn [inst] in Hi |- *; try (destruct Hi as [Hi|Hi]; discriminate Hi);
+        unfold in_size, float_unbounded in *; lia.
     - (* Array *) destruct x; cbn [inst] in Hi; try (destruct Hi as [Hi|Hi]; discriminate Hi).
       cbn [no_other] in Hn. cbn [K] in Ka, Kb. cbn [inst].
       destruct Hi as [Hi|Hi]; apply andb_true_iff in Hi; destruct Hi as [Hsz Hi].
@@ -319,11 +319,11 @@ Section InferInst.
   Qed.
 
   (* the values the theorem ranges over: first order (no type used as a value: instances of Type[T] need
-     transitivity of assignability, C03), no NaN (finding), and no alias Data / RichData at any step of the
+     transitivity of assignability, C03), and no alias Data / RichData at any step of the
      inference (the aliases are no constructors of `ty`: missing constructor TAlias) *)
   Fixpoint iv_ok (v : value) : bool :=
     match v with
-    | VNaN | VOther _ | VType _ => false
+    | VOther _ | VType _ => false
     | VArr vs =>
         forallb iv_ok vs &&
         match vs with [] => true | x :: r => fold_ok (infer rx x) (map (infer rx) r) end
@@ -366,7 +366,7 @@ Section InferInst.
     induction v using value_ind'; intros Hok; cbn [iv_ok] in Hok; try discriminate Hok; try (split; reflexivity).
     - (* Bool *) split; [reflexivity|]. cbn. apply eqb_reflx.
     - (* Int *) split; [reflexivity|]. cbn. apply in_size_refl'.
-    - (* Float *) split; [reflexivity|]. cbn. apply in_size_refl'.
+    - (* Float *) split; [reflexivity|]. cbn. rewrite in_size_refl'. reflexivity.
     - (* Str *) split; [reflexivity|]. cbn. apply str_eqb_refl.
     - (* Regexp *) split; [reflexivity|]. cbn. rewrite str_eqb_refl. apply orb_true_r.
     - (* Arr *) destruct vs as [|x r]; [split; reflexivity|].
